@@ -170,6 +170,8 @@ pub struct SimPeer {
     pub lag: u64,
     /// a made-up tip this (deviating) peer announced; it "proves" it on request
     pub fake_tip: Option<packed::VerifiableHeader>,
+    /// hashes of side-branch blocks this (deviating) peer planted into BlockFilters answers
+    pub planted: Vec<packed::Byte32>,
 }
 
 pub struct Sim {
@@ -257,6 +259,7 @@ impl Sim {
                 relay_announced: Vec::new(),
                 lag: p.lag,
                 fake_tip: None,
+                planted: Vec::new(),
             })
             .collect();
         let oracle = Checker::new(&plan);
